@@ -74,6 +74,7 @@ impl CopyDriver for Driver {
             joins.push(copy_worker);
         }
 
+        verif_point!("parfile-before-joins");
         walk_worker.join()
             .map_err(|_| XcpError::CopyError("Error walking copy tree".to_string()))??;
         for handle in joins {
@@ -91,6 +92,7 @@ impl CopyDriver for Driver {
 fn copy_worker(work: cbc::Receiver<Operation>, config: &Arc<Config>, updates: Arc<dyn StatusUpdater>) -> Result<()> {
     debug!("Starting copy worker {:?}", thread::current().id());
     for op in work {
+        verif_point!("worker-received");
         debug!("Received operation {:?}", op);
 
         match op {
